@@ -655,7 +655,7 @@ def emit(seed, tier, outdir, ntu=16):
     allsrc.append("void c02_run_all(c02::runner &_r)")
     allsrc.append("{")
     for t in range(ntu):
-        allsrc.append("  c02_run_tu_%d(_r);" % t)
+        allsrc.append("  if (_r.mine(%d)) c02_run_tu_%d(_r);" % (t, t))
     allsrc.append("}")
     p = outdir + "/c02_gen_all.cpp"
     txt = "\n".join(allsrc) + "\n"
